@@ -29,7 +29,7 @@ TITLE = 'OpenSfM export then import preserves shots, poses, cameras, points, mat
 # Gen/NumDigits translates kapture.utils.computation.num_digits, which the OpenSfM exporter does not call
 # (export_opensfm.py:363-365 uses len(str(max(n - 1, 0))) and str.zfill): the key function is modelled by hand on
 # Nat.toDigits in Model/C15.lean, and nothing generated is imported by this property.
-GEN = []
+GEN = ['OsfmCamera']
 RULE = ('each case = one generated dataset inside OpenSfM\'s perspective model: 1..3 cameras SIMPLE_PINHOLE / SIMPLE_RADIAL / '
         'RADIAL with integer image size and centred principal point, 1..8 records with distinct image names (sub-directories, '
         'spaces, unicode), every image posed (random / identity / half-turn / tiny-angle / negative-w unit quaternions), points3d '
